@@ -40,3 +40,15 @@ import CalmVerif.Props.C20
 #check @CalmVerif.Props.C20.pretty_lines_indented
 #print axioms CalmVerif.Props.C20.pretty_text_ends_with_one_newline
 #check @CalmVerif.Props.C20.pretty_text_ends_with_one_newline
+#print axioms CalmVerif.Props.C20.line_certificate_closed
+#check @CalmVerif.Props.C20.line_certificate_closed
+#print axioms CalmVerif.Props.C20.typed_line_starts_stable
+#check @CalmVerif.Props.C20.typed_line_starts_stable
+#print axioms CalmVerif.Props.C20.typed_program_tail_safe
+#check @CalmVerif.Props.C20.typed_program_tail_safe
+#print axioms CalmVerif.Props.C20.typed_tokens_edge
+#check @CalmVerif.Props.C20.typed_tokens_edge
+#print axioms CalmVerif.Props.C20.pretty_lines_indented_typed
+#check @CalmVerif.Props.C20.pretty_lines_indented_typed
+#print axioms CalmVerif.Props.C20.pretty_text_ends_with_one_newline_typed
+#check @CalmVerif.Props.C20.pretty_text_ends_with_one_newline_typed
